@@ -136,7 +136,7 @@ def builder_terms(repo, rep):
     # sequence_of_docs
     f = m.funcs['sequence_of_docs']
     where = f.where
-    for pat in S.seq_scenarios(3):
+    for pat in S.seq_scenarios(S.bound(rep, 3, 4)):
         docs = [S.sub('e%d' % i, c) for i, c in enumerate(pat)]
         for dangle in ((True, False) if len(pat) == 1 else (False,)):
             for tc in (False, True):
@@ -152,9 +152,9 @@ def builder_terms(repo, rep):
     f = m.funcs['build_fncall']
     where = f.where
     fnd = DocV(D.Ann('name', D.Lit('fn', role='identifier')))
-    for na in range(0, 3):
-        for nk in range(0, 3):
-            if na + nk > 3:
+    for na in range(0, S.bound(rep, 3, 4)):
+        for nk in range(0, S.bound(rep, 3, 4)):
+            if na + nk > S.bound(rep, 3, 4):
                 continue
             for bits in range(1 << (na + nk)):
                 cm = [bool((bits >> i) & 1) for i in range(na + nk)]
